@@ -448,3 +448,34 @@ func existsPathAvoiding(fn *ssa.Function, target ssa.Instruction, gen func(ssa.I
 	}
 	return found, path
 }
+
+// retResults returns the values a Return instruction returns, undoing go/ssa's rewriting of
+// returns in functions with defers (`*res = X; rundefers; t = *res; return t`  ==>  X).
+func retResults(ret *ssa.Return) []ssa.Value {
+	out := make([]ssa.Value, len(ret.Results))
+	for i, r := range ret.Results {
+		out[i] = r
+		u, ok := r.(*ssa.UnOp)
+		if !ok || u.Op != token.MUL {
+			continue
+		}
+		al, ok := u.X.(*ssa.Alloc)
+		if !ok {
+			continue
+		}
+		// last store into the result local in this block before the load
+		var last ssa.Value
+		for _, in := range ret.Block().Instrs {
+			if in == ssa.Instruction(u) {
+				break
+			}
+			if st, ok := in.(*ssa.Store); ok && st.Addr == al {
+				last = st.Val
+			}
+		}
+		if last != nil {
+			out[i] = last
+		}
+	}
+	return out
+}
